@@ -63,7 +63,8 @@ def substitute(e: ast.AST, env: Dict[str, ast.AST]) -> ast.AST:
 
 
 class PathEnumerator:
-    def __init__(self, max_paths: int = 20000, on_unsupported: str = "error"):
+    def __init__(self, max_paths: int = 20000, on_unsupported: str = "error", opaque: Iterable[str] = ()):
+        self.opaque = set(opaque)  # names that are never substituted by their definitions
         self.max_paths = max_paths
         self.on_unsupported = on_unsupported
         self.count = 0
@@ -164,17 +165,19 @@ class PathEnumerator:
             yield from self._block(list(st.orelse), conds + [(marker, False)], env3, events + [("loop", marker, list(st.body))])
         elif isinstance(st, ast.Try):
             handlers = st.handlers
-            # normal completion of the body (+ else)
-            for c2, e2, ev2, term in self._block(list(st.body), conds, env, events):
+            sbody = [S(b) for b in st.body]
+            markers = [("except", unparse(h.type) if h.type is not None else "BaseException", st, sbody) for h in handlers]
+            # normal completion of the body (+ else): no handler was entered
+            ncond = conds + [(m, False) for m in markers]
+            for c2, e2, ev2, term in self._block(list(st.body), ncond, env, events):
                 if term is None:
                     yield from self._block(list(st.orelse) + list(st.finalbody), c2, e2, ev2)
                 elif term[0] == "raise":
                     yield c2, e2, ev2, ("raise-in-try", term[1], term[2], handlers)  # rule decides about matching
                 else:
                     yield c2, e2, ev2, term
-            # each handler as an alternative continuation (implicit exception somewhere in the body)
-            for h in handlers:
-                marker = ("except", unparse(h.type) if h.type is not None else "BaseException", [norm(s) for s in st.body])
+            # each handler as an alternative continuation (an exception raised somewhere in the body)
+            for h, marker in zip(handlers, markers):
                 henv = dict(env)
                 yield from self._block(list(h.body) + list(st.finalbody), conds + [(marker, True)], henv, events)
         elif isinstance(st, ast.With):
@@ -186,28 +189,29 @@ class PathEnumerator:
                 raise AnalysisError("decision extractor: unsupported statement %s at line %d" % (type(st).__name__, st.lineno))
             yield conds, env, events, None
 
-    @staticmethod
-    def _bind(target: ast.AST, val: ast.AST, env: Dict[str, ast.AST]) -> None:
+    def _bind(self, target: ast.AST, val: ast.AST, env: Dict[str, ast.AST]) -> None:
         d = dotted(target)
         if d is not None:
-            # invalidate dependants of the rebound name
+            if d in self.opaque:
+                env.pop(d, None)
+                return
             env[d] = val
             return
         if isinstance(target, (ast.Tuple, ast.List)):
             if isinstance(val, (ast.Tuple, ast.List)) and len(val.elts) == len(target.elts):
                 for t, v in zip(target.elts, val.elts):
-                    PathEnumerator._bind(t, v, env)
+                    self._bind(t, v, env)
             else:
                 for i, t in enumerate(target.elts):
-                    PathEnumerator._bind(t, ast.Subscript(value=val, slice=ast.Constant(value=i), ctx=ast.Load()), env)
+                    self._bind(t, ast.Subscript(value=val, slice=ast.Constant(value=i), ctx=ast.Load()), env)
             return
         # subscript stores etc. are ignored by the extractor (rules that care look at events)
 
 
-def paths_of(fn: ast.FunctionDef, env: Optional[Dict[str, ast.AST]] = None, max_paths: int = 20000) -> List[Path]:
+def paths_of(fn: ast.FunctionDef, env: Optional[Dict[str, ast.AST]] = None, max_paths: int = 20000, opaque: Iterable[str] = ()) -> List[Path]:
     from .core import body_without_docstring
 
-    return PathEnumerator(max_paths).run(body_without_docstring(fn), env)
+    return PathEnumerator(max_paths, opaque=opaque).run(body_without_docstring(fn), env)
 
 
 # --------------------------------------------------------------------------------------------------------------
